@@ -152,6 +152,7 @@ def run(tier='quick'):
     _cleanup(prog, cg, eff, chk, K2)
     # ---- K4 ------------------------------------------------------------------------------
     chain_triggers(prog, chk, K4)
+    chain_trigger_siblings(prog, chk, K4)
     return chk.finish('value-flow interpretation of the membership operations of both implementations '
                       '(id kinds of bound values, event order), reference graph and triggers read from the DDL '
                       'of every schema version')
@@ -178,6 +179,38 @@ def chain_triggers(prog, chk, rid, table='PlaylistEntity', col='nextentityid', e
                           '%s: the DDL has no %s trigger on %s that updates %s: removing an entry that is not '
                           'the first of its list cuts the chain, and every earlier entry disappears from the '
                           'listing' % (en, event, table, col))
+
+
+def chain_trigger_siblings(prog, chk, rid, tables=('playlist', 'playlistentity')):
+    """The per-version copies of a chain-maintaining trigger are siblings: all supported 2.x
+    creators must issue the same normalised definition for a trigger of the same name (the
+    reference dumps of these versions agree on them; a copy that differs was edited alone)."""
+    import collections
+    from .. import sql as sqlmod
+    order = rowrules.enum_order(prog)
+    cats = rowrules.version_catalogs(prog)
+    from . import c13
+    supported = set(c13._supported(prog))
+    by = collections.defaultdict(dict)
+    for en in order:
+        if en not in supported or not rowrules._gen2(en):
+            continue
+        for n, t in cats[en]['main'].triggers.items():
+            if (t.table or '').lower() in tables:
+                raw = cats[en]['main'].raw.get(('trigger', n))
+                by[n][en] = ' '.join(str(x) for x in sqlmod.norm_tokens(raw.toks)) if raw is not None else str(t.norm)
+    for n, d in sorted(by.items()):
+        cnt = collections.Counter(d.values())
+        major, _ = cnt.most_common(1)[0]
+        odd = sorted(en for en, v in d.items() if v != major)
+        inst = 'trigger %s: %d version copies' % (n, len(d))
+        if not odd:
+            chk.ok(rid, inst + ' identical', n)
+        else:
+            for en in odd:
+                chk.violation(rid, '%s|%s differs from its sibling copies' % (en, n), en,
+                              '%s: the copy issued by the %s creator differs from the definition the other %d '
+                              'version(s) issue: %s  vs  %s' % (inst, en, len(d) - len(odd), d[en][:160], major[:160]))
 
 
 def _underlying(cat, name):
